@@ -114,6 +114,7 @@ func runReader(c *ctx) {
 			p[j] = 0xEE
 		}
 		before := len(sr.Calls)
+		rc.Steps++
 		got, err := lr.Read(p)
 		calls := sr.Calls[before:]
 		c.logf("Read(buf %d) = (%d, %v); wrapped calls: %s", bufLen, got, err, fmtCalls(calls))
@@ -265,6 +266,7 @@ func runWriter(c *ctx) {
 		}
 		orig := append([]byte(nil), b...)
 		before := len(sw.Calls)
+		rc.Steps++
 		got, err := tw.Write(b)
 		calls := sw.Calls[before:]
 		all = append(all, orig...)
